@@ -72,8 +72,12 @@ class MutationAnalysis:
 
     # ----------------------------------------------------------------------------------------------
     def analyse(self, fn: FunctionInfo, root_names: dict[str, int | str], is_root: Optional[Callable[[FunctionInfo, ast.AST], bool]] = None,
-                depth: Optional[int] = None, attr_store_on_root: bool = True, probes: Optional[list[ast.AST]] = None) -> list[Mutation]:
+                depth: Optional[int] = None, attr_store_on_root: bool = True, probes: Optional[list[ast.AST]] = None,
+                sticky: Optional[set[str]] = None) -> list[Mutation]:
+        """sticky: local names that denote an owned object from their (only) definition on, whatever they are bound to
+        (used to track an offspring container created inside the function)."""
         depth = self.depth if depth is None else depth
+        sticky = sticky or set()
         found: list[Mutation] = []
         seen_nodes: set[int] = set()
         probe_ids = {id(p) for p in (probes or [])}
@@ -209,7 +213,9 @@ class MutationAnalysis:
 
         def assign_target(t: ast.AST, v: int, st: dict[str, int], node: ast.AST):
             if isinstance(t, ast.Name):
-                if v < INF:
+                if t.id in sticky:
+                    st[t.id] = 0
+                elif v < INF:
                     st[t.id] = v
                 else:
                     st.pop(t.id, None)
@@ -333,7 +339,7 @@ class MutationAnalysis:
         exec_block(fn.node.body if isinstance(fn.node.body, list) else [], st0)
         for inner in [f for f in self.prog.functions.values() if f.parent is fn]:
             sub_roots = {k: v for k, v in root_names.items() if k not in inner.params}
-            for m in self.analyse(inner, sub_roots, is_root, depth, attr_store_on_root, probes):
+            for m in self.analyse(inner, sub_roots, is_root, depth, attr_store_on_root, probes, sticky):
                 found.append(Mutation(fn, m.node, m.how + f" (in nested {inner.name})", m.what, m.chain))
         return found
 
